@@ -1498,6 +1498,13 @@ func main() {
 	raceReplay(r.Fork())
 	capacityReplay(r.Fork())
 	clearReplay(r.Fork())
+	neth := 40
+	if a.Tier == "thorough" {
+		neth = 400
+	}
+	for i := 0; i < neth; i++ {
+		ethScenario(r.Fork(), i)
+	}
 	// the free-running soaks run in a child process: corrupting a Go map under concurrent use is a fatal
 	// runtime error that no recover() catches, and it must become a reported violation, not a dead harness
 	runSoakChild(a, r.U64())
